@@ -78,10 +78,22 @@ macro_rules! build_cfg {
                     f = f.allow(&a.to_string()).expect("valid address");
                 }
             }
+            // the side selectors are absolute (`only check source addresses`): the last call decides, whatever came before it and
+            // whether the filter was started with new() or with Default::default()
+            let how = (i.addrs.len() + i.addrs.first().map(|a| match a { std::net::IpAddr::V4(v) => v.octets()[3] as usize, std::net::IpAddr::V6(v) => v.octets()[15] as usize }).unwrap_or(0)) % 3;
+            if how == 2 {
+                let listed = f;
+                f = $krate::IpFilter::default();
+                f.ipv4_addresses = listed.ipv4_addresses;
+                f.ipv6_addresses = listed.ipv6_addresses;
+            }
             match i.side {
-                Side::Both => {}
-                Side::Src => f = f.source_only(),
-                Side::Dst => f = f.destination_only(),
+                Side::Both => {
+                    f.check_source = true;
+                    f.check_destination = true;
+                }
+                Side::Src => f = if how == 1 { f.destination_only().source_only() } else { f.source_only() },
+                Side::Dst => f = if how == 1 { f.source_only().destination_only() } else { f.destination_only() },
                 Side::None => {
                     f.check_source = false;
                     f.check_destination = false;
@@ -99,10 +111,11 @@ macro_rules! build_cfg {
                     f = f.allow(&format!("{}/{}", a, p)).expect("valid cidr");
                 }
             }
+            let how = (s.nets.len() + s.nets.first().map(|(_, p)| *p as usize).unwrap_or(0)) % 2;
             match s.side {
                 Side::Both => {}
-                Side::Src => f = f.source_only(),
-                Side::Dst => f = f.destination_only(),
+                Side::Src => f = if how == 1 { f.destination_only().source_only() } else { f.source_only() },
+                Side::Dst => f = if how == 1 { f.source_only().destination_only() } else { f.destination_only() },
                 Side::None => {
                     f.check_source = false;
                     f.check_destination = false;
